@@ -248,15 +248,106 @@ func ruleLogPosition() *Rule {
 	const id = "LOG-POSITION"
 	return &Rule{
 		ID: id,
-		Text: "rename() and Replay() return nil only after (*os.File).Seek on the log file to its end (Seek(0, io.SeekEnd)) or to a computed offset from the start: " +
+		Text: "Wherever the log file is cut with (*os.File).Truncate(size), Seek(size, io.SeekStart) (or Seek(0, io.SeekEnd)) on it dominates every successful return that follows; rename() and Replay() return nil only after (*os.File).Seek on the log file to its end (Seek(0, io.SeekEnd)) or to a computed offset from the start: " +
 			"the position a record's Offset is taken from is the position the record is written at.",
-		Floor: 2,
+		Floor: 4,
 		Run: func(p *Program) []Obligation {
 			fileFld := p.Field("persistentLog.file")
 			if fileFld == nil {
 				return missing(id, "persistentLog.file")
 			}
 			var out []Obligation
+			// (c) wherever the log file is cut, it is repositioned: (*os.File).Truncate does not move the descriptor, so
+			// the next write would land at the old end and leave a hole of zero bytes that Replay reads as records
+			for _, fn := range p.SortedFuncs() {
+				for _, b := range fn.Blocks {
+					for _, in := range b.Instrs {
+						c, ok := in.(*ssa.Call)
+						if !ok || calleeName(c.Common()) != "(*os.File).Truncate" {
+							continue
+						}
+						u, ok := c.Common().Args[0].(*ssa.UnOp)
+						if !ok {
+							continue
+						}
+						fa, ok := u.X.(*ssa.FieldAddr)
+						if !ok || fieldOf(fa.X.Type(), fa.Field) != fileFld {
+							continue
+						}
+						size := stripConvert(c.Common().Args[1])
+						ob := Obligation{Rule: id, Construct: "log file repositioned after it is cut in " + FuncName(fn), Pos: p.InstrPos(in)}
+						var seeks []ssa.Instruction
+						for _, bb := range fn.Blocks {
+							for _, x := range bb.Instrs {
+								sc, ok := x.(*ssa.Call)
+								if !ok || calleeName(sc.Common()) != "(*os.File).Seek" {
+									continue
+								}
+								su, ok := sc.Common().Args[0].(*ssa.UnOp)
+								if !ok {
+									continue
+								}
+								sfa, ok := su.X.(*ssa.FieldAddr)
+								if !ok || fieldOf(sfa.X.Type(), sfa.Field) != fileFld {
+									continue
+								}
+								whence, okw := constIntOf(sc.Common().Args[2])
+								if okw && ((whence == 0 && phiRelated(stripConvert(sc.Common().Args[1]), size)) || (whence == 2 && isConstInt(sc.Common().Args[1], 0))) {
+									seeks = append(seeks, x)
+								}
+							}
+						}
+						// every path from the cut to a successful return passes a repositioning Seek
+						seekIn := map[*ssa.BasicBlock]ssa.Instruction{}
+						for _, sk := range seeks {
+							seekIn[sk.Block()] = sk
+						}
+						rets, bad := 0, ""
+						seen := map[*ssa.BasicBlock]bool{}
+						var walk func(bb *ssa.BasicBlock, from int)
+						walk = func(bb *ssa.BasicBlock, from int) {
+							for i := from; i < len(bb.Instrs); i++ {
+								if sk, ok := seekIn[bb]; ok && bb.Instrs[i] == sk {
+									return
+								}
+							}
+							if ret, ok := bb.Instrs[len(bb.Instrs)-1].(*ssa.Return); ok {
+								if len(ret.Results) > 0 && isNilConst(returnedValue(ret, len(ret.Results)-1)) {
+									rets++
+									bad = p.InstrPos(ret)
+								}
+								return
+							}
+							for _, sc := range bb.Succs {
+								if !seen[sc] {
+									seen[sc] = true
+									walk(sc, 0)
+								}
+							}
+						}
+						start := 0
+						for i, x := range b.Instrs {
+							if x == in {
+								start = i + 1
+							}
+						}
+						walk(b, start)
+						if bad == "" {
+							rets = 1
+						}
+						switch {
+						case rets == 0:
+							ob.Verdict, ob.Detail = Undecided, "no successful return after the cut"
+						case bad != "":
+							ob.Verdict = Violated
+							ob.Detail = "the log file is cut with Truncate(size) and a successful return (" + bad + ") is reached without Seek(size, io.SeekStart) (or Seek(0, io.SeekEnd)) on it: Truncate leaves the descriptor where it was, the next append is written at the OLD end of the file and the gap reads back as zero bytes — phantom records, or a failing Replay"
+						default:
+							ob.Verdict, ob.Detail = Discharged, "every successful return after the cut is dominated by a Seek to the new end"
+						}
+						out = append(out, ob)
+					}
+				}
+			}
 			// (b) positioning before a successful return
 			for _, name := range []string{"(*persistentLog).rename", "(*persistentLog).Replay"} {
 				fn := p.Func(name)
@@ -326,4 +417,44 @@ func ruleLogPosition() *Rule {
 			return out
 		},
 	}
+}
+
+
+// phiRelated: a and b are the same value, or one is a phi through which the other flows (the same source variable
+// seen inside and after a loop).
+func phiRelated(a, b ssa.Value) bool {
+	if a == b {
+		return true
+	}
+	var flows func(from ssa.Value, to ssa.Value, seen map[ssa.Value]bool) bool
+	flows = func(from, to ssa.Value, seen map[ssa.Value]bool) bool {
+		ph, ok := to.(*ssa.Phi)
+		if !ok || seen[to] {
+			return false
+		}
+		seen[to] = true
+		for _, e := range ph.Edges {
+			e = stripConvert(e)
+			if e == from || flows(from, e, seen) {
+				return true
+			}
+		}
+		return false
+	}
+	if flows(a, b, map[ssa.Value]bool{}) || flows(b, a, map[ssa.Value]bool{}) {
+		return true
+	}
+	// two phis of the same variable (loop header and loop exit) share an incoming value that is itself a phi of the web
+	pa, okA := a.(*ssa.Phi)
+	pb, okB := b.(*ssa.Phi)
+	if okA && okB {
+		for _, x := range pa.Edges {
+			for _, y := range pb.Edges {
+				if _, isC := stripConvert(x).(*ssa.Const); !isC && stripConvert(x) == stripConvert(y) {
+					return true
+				}
+			}
+		}
+	}
+	return false
 }
